@@ -151,6 +151,34 @@ func tryReplay(cr *checkRun, o *Obligation) (bool, string, string) {
 	}
 	// model minimisation: prefer counterexamples with small lengths (and small strings)
 	q := o.Q
+	// strings: prefer one of the literals the code compares against
+	{
+		all := append(append([]*Term{}, o.Q.Assumes...), o.Q.Goal)
+		vars, _, _ := collectDecls(all)
+		var extra []*Term
+		for _, a := range o.ReplayArgs {
+			if s, ok := a.V.(Scalar); ok && s.T.Sort == SStr {
+				var alts []*Term
+				for _, v := range vars {
+					if strings.HasPrefix(v, "strlit!") {
+						alts = append(alts, Eq(s.T, Var(v, SStr)))
+					}
+				}
+				if len(alts) > 0 {
+					extra = append(extra, Or(alts...))
+				}
+			}
+		}
+		if len(extra) > 0 {
+			q2 := &Query{Assumes: append(append([]*Term{}, o.Q.Assumes...), extra...), Goal: o.Q.Goal}
+			if text, ok := q2.smtText(false, ""); ok {
+				if st, _, _ := runSolver(solvers[0], text, cr.smtDir, "minlit", cr.timeoutMs); st == "sat" {
+					o = &Obligation{Name: o.Name, Q: q2, Res: &SolveResult{Solver: solvers[0].name}, ReplayArgs: o.ReplayArgs, ReplayLen: o.ReplayLen, ReplayFn: o.ReplayFn, ReplayPkg: o.ReplayPkg}
+					q = q2
+				}
+			}
+		}
+	}
 	for _, bound := range []int64{4, 16, 256} {
 		var extra []*Term
 		for i, a := range o.ReplayArgs {
